@@ -390,6 +390,8 @@ static const time_t TOP = 2, TOB = 9;
 struct Dev {                           // how a party deviates (spec: CoinN.tla, dev record)
 	std::string kind;                  // honest | lib | byz | crash0 | crashopen | tamper
 	bool commit; std::vector<int> sd; std::vector<size_t> complain; std::string answer, open;
+	long reconw;                       // >= 0: in the reconstruction of this party's share it broadcasts a share that does not verify
+	Dev() : commit(true), reconw(-1) {}
 };
 struct NP;
 class SimAio : public aiounicast {
@@ -553,7 +555,8 @@ void NP::byz_body(size_t f) {
 		Mpz a(eval(P.pc, j + 1) + P.dev.sd[j]), h(eval(P.ph, j + 1));
 		P.aioP->Send(a, j); P.aioP->Send(h, j);
 	}
-	for (size_t j = 0; j < n; j++) if (j != f) { size_t from = j; if (P.aioP->Receive(tmp, from, aiounicast::aio_scheduler_direct)) { from = j; P.aioP->Receive(tmp, from, aiounicast::aio_scheduler_direct); } }
+	std::vector<Mpz> ra(n), rh(n);        // the shares this party received
+	for (size_t j = 0; j < n; j++) if (j != f) { size_t from = j; if (P.aioP->Receive(ra[j], from, aiounicast::aio_scheduler_direct)) { from = j; P.aioP->Receive(rh[j], from, aiounicast::aio_scheduler_direct); } }
 	for (size_t k = 0; k < P.dev.complain.size(); k++) { Mpz c((long)P.dev.complain[k]); rbc->Broadcast(c); }
 	{ Mpz e((long)n); rbc->Broadcast(e); }
 	std::vector<size_t> from_me;
@@ -583,6 +586,14 @@ void NP::byz_body(size_t f) {
 		Mpz a(P.pc[0] + (P.dev.open == "wrong" ? 1 : 0)), h(P.ph[0]);
 		rbc->Broadcast(a); rbc->Broadcast(h);
 	}
+	if (P.dev.reconw >= 0) {
+		// the reconstruction phase of the share of party reconw: a share that fails the verification against its commitments
+		std::ostringstream id;
+		id << "JareckiLysyanskayaRVSS::Reconstruct()" << (mpz_srcptr)GP.v << (mpz_srcptr)GQ.v << (mpz_srcptr)GG.v << (mpz_srcptr)GH.v << n << t << "[" << P.dev.reconw << "]";
+		rbc->setID(id.str());
+		Mpz a(ra[(size_t)P.dev.reconw]), h(rh[(size_t)P.dev.reconw]); mpz_add_ui(a, a, 1); mpz_mod(a, a, GQ);
+		rbc->Broadcast(a); rbc->Broadcast(h);
+	}
 	// keep the reliable broadcast of this party alive until the honest parties are through
 	size_t l;
 	while (!honest_done) rbc->Deliver(tmp, l, aiounicast::aio_scheduler_roundrobin, 0);
@@ -596,7 +607,7 @@ static json dev_j(const Dev &d, size_t n) {
 	j["recon"] = (d.kind == "honest" || d.kind == "tamper"); j["checked"] = (d.kind == "honest" || d.kind == "tamper");
 	(void)n; return j;
 }
-static Dev honest_dev(size_t n) { Dev d; d.kind = "honest"; d.commit = true; d.sd.assign(n, 0); d.answer = "true"; d.open = "true"; return d; }
+static Dev honest_dev(size_t n) { Dev d; d.kind = "honest"; d.commit = true; d.sd.assign(n, 0); d.answer = "true"; d.open = "true"; d.reconw = -1; return d; }
 
 // one execution: parties with their deviations, seeded random schedule
 static void run_np(size_t n, size_t t, size_t trbc, std::vector<Dev> devs, const json &src) {
@@ -707,6 +718,17 @@ static int main_np(unsigned long seed, long execs, const char *outp, const char 
 			}
 			if (label.empty()) label = d.kind;
 			scen = (k == 0 ? label : scen + "+" + label);
+		}
+		// a designed pair (t >= 2): one party opens a value that does not match its commitment, a second one with a low index
+		// (so that it is among the first t+1 whose shares are collected) follows the protocol and then broadcasts a wrong share
+		// in the reconstruction of the first one's share
+		if (!allhonest && x % 10 == 7) {
+			n = 5 + rnd(3); t = 2; trbc = (n - 1) / 3;
+			devs.clear(); for (size_t i = 0; i < n; i++) devs.push_back(honest_dev(n));
+			size_t b = rnd(2), a = 2 + rnd(n - 2);
+			devs[a].kind = "byz"; devs[a].open = "wrong";
+			devs[b].kind = "byz"; devs[b].reconw = (long)a;
+			scen = "byz-wrongopen+byz-wrongrecon";
 		}
 		if (filter && *filter && scen.find(filter) == std::string::npos) continue;
 		json src; src["seed"] = seed; src["k"] = x; src["scen"] = scen;
